@@ -78,6 +78,13 @@ def jobs(tier):
                            bound="%s 2x2 calibration with 3 frequencies, apply_m at %d frequencies (one between knots); marker error terms and "
                                  "measurements, kernels and _vnacal_rfi by recording contract, determinant symbolic" % (t, nf),
                            timeout=300))
+    for t in ("VNACAL_T8", "VNACAL_UE14"):
+        J.append(V.Job("apply_frame.%s_cal0" % t[7:], "vnacal/c01_apply.c", "h_apply_frame", asrc,
+                       defines=["-DCAL_TYPE=%s" % t, "-DN_APPLY=2", "-DCAL_F=0"], unwind=20,
+                       unwindset={"_vnacal_calibration_alloc.0": 26, "_vnacal_calibration_free.0": 26},
+                       union_struct=True, kind="bounded", canary=False,
+                       functions=["vnacal_apply_m", "_vnacal_apply_common", "_vnacal_calibration_get_fmin_bound", "_vnacal_calibration_get_fmax_bound"],
+                       bound="%s 2x2 calibration with NO frequencies, apply_m at 2 frequencies" % t, timeout=300))
     seqs = [("grow_16_first", "16,3,4,5,6,7,8,9"), ("grow_16_last", "3,4,5,6,7,8,16,9"), ("grow_no_collision", "3,4,5,6,7,8,9,10"),
             ("small", "16,3")]
     if tier != "quick":
